@@ -16,6 +16,7 @@ mod srv;
 mod wsx;
 mod life;
 mod w5;
+mod vs;
 
 fn main() {
     let args: Vec<String> = std::env::args().collect();
@@ -47,6 +48,9 @@ fn main() {
         "ws-c17" => wsx::c17(&a),
         "ws-c15" => life::run(&a),
         "w5" => w5::run(&a),
+        "vs-c09" => vs::c09(&a),
+        "vs-c10" => vs::c10(&a),
+        "vs-pull-child" => vs::pull_child(&a),
         other => {
             eprintln!("unknown engine {other}");
             2
